@@ -1,5 +1,6 @@
 """C15 - bot plugin: legality gate and threefold detection over any history."""
 from analysis.runner import rule
+from analysis.effects import canon
 from analysis.facts import AnchorError
 from analysis import terms as T, k2
 from analysis.effects import subterms
@@ -85,24 +86,60 @@ def r2(ctx):
     body = P.body(ADD)
     calls = [t["f"].get("fn_args", t["f"].get("fn", "")) for _, t in P.calls(ADD)]
     entry = any("HashMap" in c and c.endswith("::entry") for c in calls)
-    ins0 = False
-    for _, t in P.calls(ADD):
-        if t["f"].get("fn", "").endswith("or_insert"):
-            ins0 = k2.describe_operand(P, body, t["a"][1]) == ("int", 0, "u8")
-    eng = T.Engine(P)
-    lv = eng.tabulate(ADD)
-    ok_ret, ok_inc = False, False
-    for lf in lv:
-        r = lf.ret
-        if r[0] == "bin" and r[1] == "Eq" and T.I(3, "u8") in (r[2], r[3]):
-            x = r[2] if r[3] == T.I(3, "u8") else r[3]
-            ok_ret = True
-            ok_inc = x[0] == "bin" and x[1] == "Add" and T.I(1, "u8") in (x[2], x[3])
-    ctx.ob("ThreeFold::add", entry and ins0 and ok_ret and ok_inc, f"ThreeFold::add: entry(board)={entry}, or_insert(0)={ins0}, += 1: {ok_inc}, == 3: {ok_ret}", site=body.get("def_span"),
-           sample="*entry(board).or_insert(0) += 1; == 3")
+    GET = "chess_engine::ThreeFold::get"
+    if entry:
+        # form 1: *self.boards.entry(board).or_insert(0) += 1; the answer is (new count == 3)
+        ins0 = False
+        for _, t in P.calls(ADD):
+            if t["f"].get("fn", "").endswith("or_insert"):
+                ins0 = k2.describe_operand(P, body, t["a"][1]) == ("int", 0, "u8")
+        eng = T.Engine(P)
+        lv = eng.tabulate(ADD)
+        ok_ret, ok_inc = False, False
+        for lf in lv:
+            r = lf.ret
+            if r[0] == "bin" and r[1] == "Eq" and T.I(3, "u8") in (r[2], r[3]):
+                x = r[2] if r[3] == T.I(3, "u8") else r[3]
+                ok_ret = True
+                ok_inc = x[0] == "bin" and x[1] == "Add" and T.I(1, "u8") in (x[2], x[3])
+        ctx.ob("ThreeFold::add", entry and ins0 and ok_ret and ok_inc, f"ThreeFold::add: entry(board)={entry}, or_insert(0)={ins0}, += 1: {ok_inc}, == 3: {ok_ret}", site=body.get("def_span"),
+               sample="*entry(board).or_insert(0) += 1; == 3")
+    else:
+        # form 2: let n = self.get(&board) + 1; self.boards.insert(board, n); n == 3   (get() answers 0 for an unseen position: checked below)
+        ins = [c for c in calls if "HashMap" in c and c.endswith("::insert")]
+        opq = {GET} | {t["f"]["fn"] for _, t in P.calls(ADD) if t["f"].get("fn", "").endswith("::insert")}
+        eng = T.Engine(P, opaque=opq)
+        eng.trace_calls = set(opq) - {GET}
+        lv = eng.tabulate(ADD)
+        board_p = ("param", 1, "a1")
+        got = ("app", GET, (("refv", ("obj", ("param", 0, "self"))), ("refv", board_p)))
+        newc = None
+        ok2 = bool(lv) and len(ins) == 1
+        for lf in lv:
+            cs = [c for c in lf.trace if c[0] == "call"]
+            ok2 &= len(cs) == 1 and cs[0][2][1] == board_p
+            if len(cs) == 1:
+                newc = cs[0][2][2]
+                ok2 &= canon(newc) == canon(("bin", "Add", got, T.I(1, "u8")))
+                # the answer: (new count == 3), as a returned comparison or as the branch the path took
+                r = lf.ret
+                if r[0] == "bin" and r[1] == "Eq":
+                    ok2 &= canon(r) == canon(("bin", "Eq", newc, T.I(3, "u8")))
+                elif T.is_const(r):
+                    tests = [(t_, v) for t_, v in lf.cond if t_ == newc or (t_[0] == "bin" and t_[1] == "Eq" and newc in t_[2:])]
+                    ok2 &= len(tests) == 1 and ((tests[0][1] == 3) == bool(r[1]) if tests[0][0] == newc and isinstance(tests[0][1], int) else
+                                                (isinstance(tests[0][1], tuple) and not bool(r[1])) if tests[0][0] == newc else (bool(tests[0][1]) == bool(r[1])))
+                else:
+                    ok2 = False
+        glv = T.Engine(P).tabulate(GET)
+        get_zero = any(T.is_const(l.ret) and l.ret[1] == 0 for l in glv) and len(glv) == 2
+        ctx.ob("ThreeFold::add", ok2 and get_zero, f"ThreeFold::add (get/insert form): insert(board, get(board) + 1) and answer == 3: {ok2}; get() is 0 for an unseen position: {get_zero}",
+               site=body.get("def_span"), sample="insert(board, get(&board) + 1); n == 3")
     # nothing is ever forgotten: the only map operation in add is entry(); no other function borrows the table mutably
     map_calls = [c for c in calls if "hash::map::HashMap::<" in c or "hash::map::HashMap<" in c]
-    ctx.ob("add only inserts/increments", bool(map_calls) and all(c.endswith("::entry") for c in map_calls),
+    forgetting = [c for c in map_calls if c.rsplit("::", 1)[-1].split("<")[0] in ("clear", "remove", "remove_entry", "retain", "drain", "extract_if", "shrink_to", "shrink_to_fit")
+                  or not c.rsplit("::", 1)[-1].startswith(("entry", "insert", "get", "contains_key", "len", "is_empty"))]
+    ctx.ob("add only inserts/increments", bool(map_calls) and not forgetting,
            f"ThreeFold::add performs {[c.rsplit('::', 1)[-1] for c in map_calls]} on the repetition table; anything but entry() (clear, remove, retain, ...) forgets occurrences that a later repetition must count",
            site=body.get("def_span"), sample=[c.rsplit("::", 1)[-1] for c in map_calls])
     TF = "chess_engine::ThreeFold"
